@@ -2,6 +2,7 @@
 import ecache
 import ewrap
 import kinds
+import i64table
 import tables
 
 LEVEL = "E-TABLE over mtbdd::terminal_bin"
@@ -24,4 +25,10 @@ def run(ctx):
     n = ecache.run(ctx, F, crates=("oxidd_rules_mtbdd::",))
     ctx.floor("E-CACHE", "cache-using algorithm functions", n, 3)
     ecache.check_hit_equals_miss(ctx, F, crates=("oxidd_rules_mtbdd::",))
+    ctx.explain("E-TABLE.i64: Add/Sub/Mul/Div of the extended-integer terminal type are interpreted over "
+                "{NaN, -inf, +inf, Num(neg|zero|pos)}^2; checked_* answers None exactly for the sign pairs that can "
+                "overflow and the saturation arm must yield the infinity of the exact result's sign; non-finite cases "
+                "follow IEEE semantics.")
+    n = i64table.run(ctx, F)
+    ctx.floor("E-TABLE.i64", "abstract cases of the I64 operators", n, 140)
     ctx.not_decided = "the recursive step, non-overflow arithmetic of the terminal types, Div rounding, float behaviour"
